@@ -683,7 +683,7 @@ Theorem nothing_after_last_close : forall p, WFprog p ->
 Proof.
   intros p H l1 c t k l2 Ht Hk. apply wf_runs in H. destruct H as [s Hs]. pose proof (run_inv _ _ Hs) as I.
   unfold trace in Ht. rewrite Hs in Ht. pose proof (log_ok_chron _ (inv_logok _ _ I) _ _ _ Ht) as Hok.
-  destruct k; simpl in *; try tauto. congruence.
+  destruct k; simpl in *; tauto.
 Qed.
 
 Theorem counts : forall p, WFprog p -> exists s, run p = Some s /\ forall v,
@@ -706,7 +706,7 @@ Proof.
   { intros H1. rewrite Hm in H1.
     destruct (cnt TNew v (d_log (snd s))) eqn:E; [|lia].
     assert (1 <= cnt TNew v (d_log (snd s)))%nat by (apply (log_ok_call_new _ TClone); [apply (inv_logok _ _ I) | lia]). lia. }
-  unfold live_handles. repeat split; auto; try lia. intros H0 H1. specialize (Hn H1). lia.
+  unfold live_handles. repeat split; auto; try lia.
 Qed.
 
 Theorem enter_exit : forall p, WFprog p -> exists s, run p = Some s /\ forall v t,
@@ -726,3 +726,178 @@ Proof.
     rewrite !cnt_at_rev in E. lia.
   - rewrite !cnt_at_rev. apply depth_counts; assumption.
 Qed.
+
+(** * Per-step emission theorems: disabled spans are silent; what Instrumented emits *)
+Ltac break_match_hyp H :=
+  match type of H with
+  | context [match ?X with _ => _ end] =>
+      tryif (match X with context [match _ with _ => _ end] => idtac end) then fail
+      else (let E := fresh "E" in destruct X eqn:E; try discriminate H)
+  end.
+
+Definition quiet (l l' : list entry) : Prop :=
+  exists marks, l' = marks ++ l /\ forallb is_mark marks = true.
+Lemma quiet_refl : forall l, quiet l l.
+Proof. intros; exists []; split; reflexivity. Qed.
+Lemma quiet_trans : forall a b c, quiet a b -> quiet b c -> quiet a c.
+Proof.
+  intros a b c [m1 [H1 H1']] [m2 [H2 H2']]. exists (m2 ++ m1). rewrite H2, H1, app_assoc. split; [reflexivity|].
+  rewrite forallb_app, H1', H2'; reflexivity.
+Qed.
+
+(** a micro-action on an unlogged value is quiet and leaves every value as it was, except possibly a new name *)
+Definition msubject (m : micro) : option name :=
+  match m with
+  | MCloneTo r _ _ | MRecord r _ | MFollows r _ _ | MRelease r _ => Some r
+  | MEnterE e | MExitE e => Some (e_holder e)
+  | _ => None
+  end.
+Definition mquiet_kind (m : micro) : bool :=
+  match m with MNewSpan _ _ _ _ | MCurrentTo _ _ | MOrCurrent _ _ => false | _ => true end.
+
+Lemma md_quiet : forall m d, mquiet_kind m = true ->
+  match msubject m with Some r => unlogged (val_of d r) = true | None => True end ->
+  quiet (d_log d) (d_log (md m d)) /\ (forall r, match m with MCloneTo _ n _ => r <> n | _ => True end -> val_of (md m d) r = val_of d r).
+Proof.
+  intros m d Hk Hs. destruct m; try discriminate Hk; cbn [msubject] in Hs; cbn [md].
+  - destruct (val_of d r) eqn:E; try discriminate Hs; (split; [apply quiet_refl|]);
+      intros r0 Hr; unfold val_of, set_val; simpl; destruct (n =? r0) eqn:E2; try reflexivity;
+      apply N.eqb_eq in E2; congruence.
+  - destruct (val_of d n); try discriminate Hs; split; auto using quiet_refl.
+  - split; auto using quiet_refl.
+  - destruct (val_of d (e_holder e)); try discriminate Hs; split; auto using quiet_refl.
+  - destruct (val_of d (e_holder e)); try discriminate Hs; split; auto using quiet_refl.
+  - destruct (val_of d r); try discriminate Hs; split; auto using quiet_refl.
+  - destruct (val_of d r); try discriminate Hs; split; auto using quiet_refl.
+  - split; [exists [EMark t m]; split; reflexivity | reflexivity].
+  - split; [apply quiet_refl | reflexivity].
+  - split; [apply quiet_refl | reflexivity].
+Qed.
+
+Definition mcond (d : dyn) (m : micro) : Prop :=
+  mquiet_kind m = true /\ match m with MCloneTo _ _ _ => False | _ => True end /\
+  match msubject m with Some r => unlogged (val_of d r) = true | None => True end.
+
+Lemma exec_quiet : forall ms s s', exec ms s = Some s' -> Forall (mcond (snd s)) ms ->
+  quiet (d_log (snd s)) (d_log (snd s')).
+Proof.
+  induction ms as [|m ms]; intros s s' H HF; simpl in H.
+  - inversion H; subst. apply quiet_refl.
+  - destruct (mo m (fst s)) as [o'|]; [|discriminate]. inversion HF as [|? ? [Hk [Hc Hs]] HF']; subst.
+    destruct (md_quiet m (snd s) Hk Hs) as [Hq Hv].
+    eapply quiet_trans; [exact Hq|]. apply (IHms _ _ H). simpl.
+    eapply Forall_impl; [|exact HF']. intros m' [Hk' [Hc' Hs']]. repeat split; auto.
+    destruct (msubject m'); auto. rewrite Hv; [assumption|]. destruct m; auto.
+Qed.
+
+Lemma ents_on_holder : forall o n e l, ents_on o n = e :: l -> e_holder e = n.
+Proof.
+  unfold ents_on; intros o n e l H. assert (Hin : In e (filter (fun e => e_holder e =? n) (o_ents o))) by (rewrite H; simpl; auto).
+  apply filter_In in Hin. apply N.eqb_eq; tauto.
+Qed.
+
+Ltac qfin H :=
+  repeat break_match_hyp H; apply exec_quiet in H; auto; cbn [snd];
+  repeat (constructor; try (unfold mcond; cbn [mquiet_kind msubject e_holder]; repeat split; auto));
+  try (match goal with H' : ents_on _ _ = _ :: _ |- _ => apply ents_on_holder in H'; rewrite H'; assumption end).
+
+Theorem disabled_silent_step : forall s x s', step s x = Some s' -> on_unlogged s x = true ->
+  quiet (d_log (snd s)) (d_log (snd s')).
+Proof.
+  intros [o d] [t a] s' H Hu. unfold step in H. cbn [fst snd] in *. unfold on_unlogged in Hu. cbn [fst snd] in Hu.
+  destruct a; try discriminate Hu; cbn [compile] in H; try (qfin H; fail).
+  (* Clone *)
+  destruct (readable o r && negb (live o n)); [|discriminate]. simpl in H.
+  destruct (live o r && negb (live o n)); [|discriminate]. inversion H; subst; clear H. cbn [snd md].
+  destruct (val_of d r); try discriminate Hu; apply quiet_refl.
+Qed.
+
+Lemma find_some_prop : forall {A} (f : A -> bool) l x, find f l = Some x -> f x = true.
+Proof. intros A f l x H. apply find_some in H. tauto. Qed.
+
+Theorem instrumented_step : forall s t f s', is_fut (fst s) f = true ->
+  let v := val_of (snd s) f in
+  (step s (t, PollBegin f) = Some s' ->
+     d_log (snd s') = EMark t (MBody f) :: enter_entries v t ++ d_log (snd s)) /\
+  (step s (t, Drop f) = Some s' ->
+     d_log (snd s') = close_entries v t ++ exit_entries v t ++ EMark t (MInnerDrop f) :: enter_entries v t ++ d_log (snd s)) /\
+  (step s (t, IntoInner f) = Some s' ->
+     d_log (snd s') = EMark t (MInnerDrop f) :: close_entries v t ++ d_log (snd s)).
+Proof.
+  intros [o d] t f s' Hf v. subst v. cbn [fst snd] in *. unfold step. cbn [fst snd compile].
+  unfold is_fut in Hf. destruct (kind_of o f) as [[|]|] eqn:Ek; try discriminate Hf.
+  unfold is_fut. rewrite Ek. unfold val_of.
+  destruct (lookup (d_vals d) f) as [[| |i c]|] eqn:El;
+    (repeat split; intros H; simpl in H; unfold val_of in H; simpl in H; rewrite ?El in H;
+     repeat (break_match_hyp H; simpl in H; unfold val_of in H; simpl in H; rewrite ?El in H);
+     inversion H; subst; clear H; simpl; reflexivity).
+Qed.
+
+Theorem instrumented_poll_end : forall s t r s', step s (t, PollEnd r) = Some s' ->
+  exists e, top_frame (fst s) t = Some e /\ e_kind e = EPoll /\ e_tid e = t /\
+            d_log (snd s') = exit_entries (val_of (snd s) (e_holder e)) t ++ d_log (snd s).
+Proof.
+  intros [o d] t r s' H. unfold step in H. cbn [fst snd compile] in *.
+  destruct (top_frame o t) as [e|] eqn:Et; [|discriminate]. destruct (e_kind e) eqn:Ek; try discriminate.
+  exists e. repeat split; auto.
+  - apply find_some_prop in Et. unfold is_control in Et. apply andb_true_iff in Et. apply N.eqb_eq; tauto.
+  - assert (Htid : e_tid e = t).
+    { apply find_some_prop in Et. unfold is_control in Et. apply andb_true_iff in Et. apply N.eqb_eq; tauto. }
+    unfold val_of. destruct (lookup (d_vals d) (e_holder e)) as [[| |i c]|] eqn:El;
+      (simpl in H; unfold val_of in H; simpl in H; rewrite ?El in H;
+       repeat (break_match_hyp H; simpl in H; unfold val_of in H; simpl in H; rewrite ?El in H);
+       inversion H; subst; clear H; simpl; reflexivity).
+Qed.
+
+(** * Program-level forms *)
+Lemma run_from_snoc : forall p s x,
+  run_from s (p ++ [x]) = match run_from s p with Some s1 => step s1 x | None => None end.
+Proof.
+  induction p as [|y p]; intros s x; simpl.
+  - destruct (step s x); reflexivity.
+  - destruct (step s y); [apply IHp | reflexivity].
+Qed.
+Lemma run_snoc : forall p x, run (p ++ [x]) = match run p with Some s => step s x | None => None end.
+Proof. intros; apply run_from_snoc. Qed.
+
+Theorem disabled_silent : forall p x, WFprog (p ++ [x]) ->
+  exists s s', run p = Some s /\ run (p ++ [x]) = Some s' /\
+    (on_unlogged s x = true -> quiet (d_log (snd s)) (d_log (snd s'))).
+Proof.
+  intros p x H. apply wf_runs in H. destruct H as [s' Hs']. rewrite run_snoc in Hs'.
+  destruct (run p) as [s|] eqn:E; [|discriminate]. exists s, s'. rewrite run_snoc, E. repeat split; auto.
+  intros Hu. eapply disabled_silent_step; eassumption.
+Qed.
+
+(** the disabled branch of span! (the collector said no, or there is no collector): a Span with no inner, no call *)
+Theorem disabled_branch_silent : forall s t n par s',
+  step s (t, New n (ViaMacro false) par) = Some s' ->
+  d_log (snd s') = d_log (snd s) /\ val_of (snd s') n = SNone.
+Proof.
+  intros [o d] t n par s' H. unfold step in H. cbn [fst snd compile] in H.
+  repeat (break_match_hyp H; simpl in H); inversion H; subst; clear H; simpl; unfold val_of; simpl;
+  rewrite N.eqb_refl; split; reflexivity.
+Qed.
+
+(** * Non-vacuity *)
+Definition p_demo : prog :=
+  [ (0, SetDefault 1); (0, New 0 (ViaMacro true) PCtx); (0, Clone 0 1); (1, SetDefault 2);
+    (1, Enter 0 0); (1, Enter 1 1); (1, DropGuard 0);            (* out of order, under a foreign default *)
+    (0, Entered 0); (0, Current 2); (1, DropGuard 1);
+    (0, Instrument 1 false); (1, PollBegin 1); (1, PollEnd Pending); (0, Drop 1);   (* dropped between polls *)
+    (0, New 3 (ViaMacro false) PRoot); (0, Enter 3 7); (0, DropGuard 7); (0, Drop 3); (* a disabled span *)
+    (0, Drop 0); (1, Drop 2) ].
+Example demo_wf : WFprog p_demo.
+Proof. vm_compute. reflexivity. Qed.
+Example demo_trace :
+  length (trace p_demo) = 18%nat /\ cnt TNew (1, 1) (trace p_demo) = 1%nat /\ cnt TClone (1, 1) (trace p_demo) = 2%nat /\
+  cnt TClose (1, 1) (trace p_demo) = 3%nat /\ cnt_at TEnter (1, 1) 1 (trace p_demo) = 3%nat /\
+  cnt_at TExit (1, 1) 1 (trace p_demo) = 3%nat.
+Proof. vm_compute. repeat split; reflexivity. Qed.
+Example demo_disabled_step :
+  exists s s', run [(0, SetDefault 1); (0, New 3 (ViaMacro false) PRoot)] = Some s /\
+    step s (0, Enter 3 7) = Some s' /\ on_unlogged s (0, Enter 3 7) = true.
+Proof. eexists; eexists. vm_compute. repeat split; reflexivity. Qed.
+Example demo_illformed : wf_prog [(0, SetDefault 1); (0, New 0 Direct PRoot); (1, Enter 0 0); (0, Drop 0)] = false
+                      /\ wf_prog [(0, New 0 Direct PRoot); (0, Enter 0 0); (1, DropGuard 0)] = false.
+Proof. vm_compute. split; reflexivity. Qed.
